@@ -6,7 +6,12 @@ Behavioural normal forms probed on the *current* tree by running the public entr
 AST: what is added to the running size per batch entry, whether the error entries of invalid
 members are accounted, whether an entry after an overflowing one is still replaced, the
 separator/bracket lengths of a batch message, the boundary behaviour of a single response (at
-the limit: kept, one byte over: replaced by an error with the same id, limit 0: unlimited).
+the limit: kept, one byte over: replaced by an error with the same id, limit 0: unlimited);
+WHICH limit decides when `max_response_size` (a public attribute "intended to be settable
+dynamically") is changed between the receipt of a request / a batch and the moment a result is
+supplied, and between the supplies of a batch: the real connection is run through every such
+history over a small grid of limits (0, too small, exactly fitting, large) and what was kept /
+replaced is tabulated (`single_limit_table`, `batch_limit_table`).
 Plus AST fingerprints of the modelled functions (only used to deepen the search after a change;
 a function that cannot be found is `missing`, never an error)."""
 import asyncio
@@ -136,6 +141,53 @@ def extract(repo):
                 [e.get('id') for e in out] == [1, 2]
         except Exception:   # noqa
             facts['overflow_sticky'] = None
+        # ---- which limit decides?  receive with limit A, set B, supply (single); receive with
+        # limit A, set B, supply the first result, set C, supply the second (batch)
+        def kept_or_replaced(entry, result, rid):
+            """True: the real result, False: an error under the same id, None: anything else"""
+            if not isinstance(entry, dict) or entry.get('id') != rid:
+                return None
+            if entry.get('error') is None and entry.get('result') == result:
+                return True
+            if entry.get('error') is not None and entry.get('result') is None:
+                return False
+            return None
+        rows = []
+        for a in (0, L - 1, L):
+            for b in (0, L - 1, L):
+                try:
+                    c = jr.JSONRPCConnection(proto)
+                    c.max_response_size = a
+                    (rq,) = c.receive_message(json.dumps(req(7)).encode())
+                    c.max_response_size = b
+                    k = kept_or_replaced(json.loads(rq.send_result(result)), result, 7)
+                except Exception:   # noqa
+                    k = None
+                if k is not None:
+                    rows.append([a, b, L, k])
+        facts['single_limit_table'] = rows
+        rows = []
+        i2 = max(inc, 0)
+        grid = (0, L1 + i2 - 1, L1 + i2, L1 + L2 + 2 * i2)
+        for a in grid:
+            for b in grid:
+                for c3 in grid:
+                    try:
+                        c = jr.JSONRPCConnection(proto)
+                        c.max_response_size = a
+                        ra, rb = c.receive_message(json.dumps([req(1), req(2)]).encode())
+                        c.max_response_size = b
+                        first = ra.send_result(r1)
+                        c.max_response_size = c3
+                        out = json.loads(rb.send_result(r2))
+                        k1 = kept_or_replaced(out[0], r1, 1)
+                        k2 = kept_or_replaced(out[1], r2, 2)
+                        ok = first is None and len(out) == 2
+                    except Exception:   # noqa
+                        ok = False
+                    if ok and k1 is not None and k2 is not None:
+                        rows.append([a, b, c3, L1, L2, k1, k2])
+        facts['batch_limit_table'] = rows
         # ---- request batch or response batch?  every two-member list over {request,
         # response-looking}: handled as a request batch <=> a Request item comes back, or the
         # ProtocolError raised carries a batch (a JSON list) as the message for the peer
@@ -195,6 +247,18 @@ def render(f):
         f'def invalidMembersAccounted : Option Bool := {_ob(f.get("invalid_members_accounted"))}\n'
         '/-- `[request 100 bytes over, request that would fit on its own]`: both are replaced -/\n'
         f'def overflowSticky : Option Bool := {_ob(f.get("overflow_sticky"))}\n'
+        '/-- `max_response_size` changed while a single request is in flight: (limit when the\n'
+        '    request is received, limit when the result is supplied, length of the response, the\n'
+        '    real result was sent) - probed by running the connection; rows whose outcome is neither\n'
+        '    "the result" nor "an error under the same id" are left out -/\n'
+        'def singleLimitTable : List (Nat × Nat × Nat × Bool) := ['
+        + ', '.join(f'({a}, {b}, {l}, {_b(k)})' for a, b, l, k in f.get('single_limit_table', [])) + ']\n'
+        '/-- the same for a batch of two requests: (limit at receipt, limit when the first result\n'
+        '    is supplied, limit when the second is supplied, length of the first response, of the\n'
+        '    second, first entry real, second entry real) -/\n'
+        'def batchLimitTable : List (Nat × Nat × Nat × Nat × Nat × Bool × Bool) := ['
+        + ', '.join(f'({a}, {b}, {c}, {l1}, {l2}, {_b(k1)}, {_b(k2)})'
+                    for a, b, c, l1, l2, k1, k2 in f.get('batch_limit_table', [])) + ']\n'
         '/-- `receive_message` on `[a, b]`: (a looks like a response, b looks like a response,\n'
         '    handled as a request batch) -/\n'
         'def dispatchTable : List (Bool × Bool × Bool) := ['
